@@ -13,8 +13,9 @@ READING: library convention (documented for `active_edges_single_cycle`): "no li
 from . import _loop
 
 NAME = "slitherlink"
-STATUS = "model+differential"
-THEOREMS = []
+STATUS = "theorem"
+THEOREMS = ["Cspuz.C11.Slitherlink.program_iff_rules", "Cspuz.C11.Slitherlink.total"]
+LEAN_FILE = "C11_Slitherlink"
 LEAN_CMD = "puz_slitherlink"
 
 _SHAPES = [(1, 1), (1, 2), (2, 1), (1, 3), (3, 1), (2, 2), (2, 3), (3, 2), (1, 4), (4, 1), (2, 3), (3, 2), (3, 3), (2, 4), (4, 2)]
